@@ -477,7 +477,10 @@ func (m *Manager) TerminateSession(ctx context.Context, sessionID string, reason
 	session.UpdatedAt = time.Now()
 	m.mu.Unlock()
 
-	// Release IP addresses
+	// Release IP addresses. The session is removed below whatever happens here,
+	// so the releases must not be abandoned when the caller's deadline runs out
+	// or its context is cancelled: they keep the context's values only.
+	ctx = context.WithoutCancel(ctx)
 	if session.IPv4 != nil && m.allocator != nil {
 		if err := m.allocator.ReleaseIPv4(ctx, session.IPv4); err != nil {
 			m.logger.Warn("Failed to release IPv4",
